@@ -363,8 +363,7 @@ class Harness:
 
         def uptime_getter(self_: Any) -> bool:
             v = orig_uptime.fget(self_)
-            if v:
-                s.log("uptime_reached")
+            s.log("uptime_reached" if v else "uptime_check")
             return v
         self._patch(tctl.ControlThread, "is_max_uptime_reached", property(uptime_getter))
 
